@@ -224,7 +224,20 @@ func init() {
 		lg := o.One(e.Calls(fn, "invoke:am/notify.NotificationLog.Log"), "log-call", "SetNotifiesStage must record the notification", fn)
 		var as []string
 		for i := 1; i <= 6; i++ {
-			as = append(as, stripCtx(e.Arg(lg, i)))
+			a := stripCtx(e.Arg(lg, i))
+			// an argument read from a local struct that a helper filled: the value the field was given
+			if i-1 < len(lg.Common().Args) {
+				var vals []string
+				for _, alt := range e.FieldAlternatives(fn, lg.Common().Args[i-1]) {
+					if alt != "zero" {
+						vals = append(vals, stripCtx(alt))
+					}
+				}
+				if len(vals) == 1 {
+					a = vals[0]
+				}
+			}
+			as = append(as, a)
 		}
 		o.Site(lg, "Log("+strings.Join(as, ", ")+")")
 		o.Check(strings.HasSuffix(as[0], ".recv") || as[0] == "recv.recv", "log-recv", "the entry must be logged for this stage's receiver, is "+as[0], lg)
@@ -232,7 +245,9 @@ func init() {
 		o.Check(strings.HasPrefix(as[2], "am/notify.FiringAlerts(") && strings.HasSuffix(as[2], "#0"), "log-firing", "the logged firing hashes must be this flush's (from the context), are "+as[2], lg)
 		o.Check(strings.HasPrefix(as[3], "am/notify.ResolvedAlerts(") && strings.HasSuffix(as[3], "#0"), "log-resolved", "the logged resolved hashes must be this flush's (from the context), are "+as[3], lg)
 		o.Check(strings.HasPrefix(as[4], "am/notify.NflogStore(") && strings.HasSuffix(as[4], "#0"), "log-store", "receiver data must come from the context's store, is "+as[4], lg)
-		o.Check(strings.HasPrefix(as[5], "(2 * am/notify.RepeatInterval(") || strings.HasPrefix(as[5], "(am/notify.RepeatInterval(") && strings.HasSuffix(as[5], " * 2)"), "log-expiry", "the entry must be kept for 2×repeat_interval, expiry is "+as[5], lg)
+		twice := strings.HasPrefix(as[5], "(2 * am/notify.RepeatInterval(") || strings.HasPrefix(as[5], "(am/notify.RepeatInterval(") && strings.HasSuffix(as[5], " * 2)") ||
+			regexpMatch(`\((am/notify\.RepeatInterval\(.*\)#0) \+ (am/notify\.RepeatInterval\(.*\)#0)\)`, as[5]) && strings.Count(as[5], "am/notify.RepeatInterval(") == 2
+		o.Check(twice, "log-expiry", "the entry must be kept for 2×repeat_interval, expiry is "+as[5], lg)
 		// always then: the only exits that skip the record are the ones for a flush context without its values
 		{
 			missing := LRe(`am/notify\.(GroupKey|FiringAlerts|ResolvedAlerts|RepeatInterval)\(.*\)#1`, false)
@@ -243,7 +258,13 @@ func init() {
 		// the stage returns Log's error
 		for _, rs := range e.ResultStores(fn, 2) {
 			if (&Walk{Fn: fn}).After(lg).Has(rs.Instr) || rs.Instr.Block() == lg.Block() {
-				o.Check(e.X(fn, rs.Val) == e.X(fn, lg.(*ssa.Call)) || strings.Contains(e.X(fn, rs.Val), "NotificationLog.Log("), "log-error-dropped", "a failure to record the notification is not reported", rs.Instr)
+				lx := e.X(fn, lg.(*ssa.Call))
+				okv := e.X(fn, rs.Val) == lx || strings.Contains(e.X(fn, rs.Val), "NotificationLog.Log(")
+				if !okv && isNilConst(rs.Val) {
+					// "if err != nil { return err }; return nil": the nil stands for Log's nil
+					okv = e.OnlyUnder(rs.Instr, L("("+lx+" == nil)", true))
+				}
+				o.Check(okv, "log-error-dropped", "a failure to record the notification is not reported", rs.Instr)
 			}
 		}
 		// Log
